@@ -168,6 +168,9 @@ func Or(ts ...*Term) *Term {
 func Implies(a, b *Term) *Term { return Or(Not(a), b) }
 
 func Eq(a, b *Term) *Term {
+	if a.Sort.K == KFP && a.S == b.S {
+		return Not(FPIsNaN(a))
+	}
 	if a.S == b.S {
 		return True
 	}
